@@ -283,6 +283,8 @@ type world struct {
 	notes    []string
 	fatal    string
 	ntags    int
+	hangOpen map[int]bool // peers whose OpenStream parks until teardown, ignoring the context
+	hangSeen map[int]bool // ... and has been entered
 }
 
 var curWorld atomic.Pointer[world]
@@ -360,8 +362,20 @@ func (h *handler) OpenStream(ctx context.Context, p peer.Peer) (drpc.Stream, []s
 		return nil, nil, 0, errOpen
 	}
 	w.mu.Lock()
+	hang := w.hangOpen[fp.id]
+	if hang {
+		if w.hangSeen == nil {
+			w.hangSeen = map[int]bool{}
+		}
+		w.hangSeen[fp.id] = true
+	}
 	s := w.plans[fp.id]
 	w.mu.Unlock()
+	if hang {
+		// connection accepted, then silence: the opening never finishes and does not look at ctx
+		<-w.teardown
+		return nil, nil, 0, errOpen
+	}
 	if s == nil {
 		return nil, nil, 0, errOpen
 	}
